@@ -13,6 +13,7 @@ import XotModel.Driver.Output
 import XotModel.Driver.Scope
 import XotModel.Driver.Ffixed
 import XotModel.Driver.Html5
+import XotModel.Driver.Fmap
 
 open XotModel.Driver
 
@@ -38,6 +39,10 @@ def dispatchAll (st : MState) (line : String) : MState × String :=
   | "forest" :: "fixed" :: rest => (match handleFfixed st.forest rest with | some (fs, resp) => ({ st with forest := fs }, resp) | none => (st, "bad-request"))
   | "forest" :: rest =>
     (match handleForest st.forest rest with
+     | some (fs, resp) => ({ st with forest := fs }, resp)
+     | none => (st, "bad-request"))
+  | "fmap" :: rest =>
+    (match handleFmap st.forest rest with
      | some (fs, resp) => ({ st with forest := fs }, resp)
      | none => (st, "bad-request"))
   | _ =>
